@@ -245,6 +245,9 @@ impl<'a> P<'a> {
         };
         let mut e = A::el("", "");
         for (n, v) in &raw_attrs {
+            if (n == "xmlns" || n.starts_with("xmlns:")) && v == "http://www.w3.org/2000/xmlns/" {
+                return Err(E::Unk("reserved namespace declared".into()));
+            }
             if n == "xmlns" {
                 e.nss.push(A::ns_node("", v));
             } else if let Some(p) = n.strip_prefix("xmlns:") {
